@@ -131,7 +131,16 @@ def run(prop, tier):
             captured.clear()
             if use_reader:
                 W = r.choice([1, 2, 5, 80, 160, 441, 800])
-                rd = au.AudioReader(b"\0" * 40, block_dur=W / rate, sr=rate, sw=1, ch=1)
+                # the reader's window is what it actually delivers: block_size / rate -- also when the requested duration is not a whole
+                # number of samples, and also when the reader overlaps its windows (hop_dur says where windows start, not how long they are)
+                shape = r.random()
+                rkw = {}
+                bd_req = W / rate
+                if shape < 0.25:
+                    bd_req = (W + r.choice([0.5, 0.25, 0.9])) / rate
+                elif shape < 0.5 and W > 1:
+                    rkw["hop_dur"] = r.randint(1, W - 1) / rate
+                rd = au.AudioReader(b"\0" * 40, block_dur=bd_req, sr=rate, sw=1, ch=1, **rkw)
                 W = rd.block_size
                 case = (42, [C.fhex_me(mind), C.fhex_me(maxd), C.fhex_me(sil), W, rate])
                 # an analysis_window keyword given next to an AudioReader input has no say: w is the reader's block duration
